@@ -13,7 +13,12 @@ def _assert_repo():
     """The checks must run the library from /repo's working tree (or CRCUBE_SRC)."""
     src = os.environ.get("CRCUBE_SRC")
     if src:
+        # the venv's namespace-package .pth pins cr.__path__ to /repo/src/cr: put the
+        # alternative tree (mutation demos only) in front of it
         sys.path.insert(0, src)
+        import cr
+
+        cr.__path__.insert(0, os.path.join(src, "cr"))
     import cr.cube
 
     path = os.path.realpath(list(cr.cube.__path__)[0])
